@@ -22,7 +22,7 @@ from hypothesis import strategies as st
 import lib.compat  # noqa
 from migen import *
 from lib.fastsim import FastSim, MigenSim, compile_dut, HarnessError
-from lib.native import NativeSlave
+from lib.native import native_slave, slave_style, NativeSlave
 
 _CACHE = {}
 
@@ -233,7 +233,7 @@ def cycle_cap(cfg, stim):
 def run_bridge(cfg, stim, backend="fast", max_cycles=None, trace=None):
     dut, sim = get_sim(cfg, backend)
     sl = stim.get("slave", {})
-    slave = NativeSlave([dut.port], ready_pattern=sl.get("ready"), wlat=sl.get("wlat"), rlat=sl.get("rlat"), qmax=sl.get("qmax", 8))
+    slave = native_slave([dut.port], sl)
     master = AvalonMaster(dut.avalon, stim["ops"], idle_clear=stim.get("idle_clear", False))
     fsm = dut.bridge.fsm
     enc = fsm.encoding
@@ -282,6 +282,8 @@ def run_bridge(cfg, stim, backend="fast", max_cycles=None, trace=None):
                 last_sig, last_progress = sig, t
             elif t - last_progress > silence:
                 break               # nothing has happened on either interface for `silence` cycles with work outstanding
+    if hasattr(slave, "finish"):
+        slave.finish(t)
     r = AvalonRun()
     r.cfg, r.stim, r.dut, r.master, r.slave, r.cycles, r.completed = cfg, stim, dut, master, slave, t, done
     r.early_exit = early_exit
@@ -336,6 +338,9 @@ def oracle(run, P="C11"):
         for na in ref.footprint(beat_addr(cfg, op, m.beat if op["kind"] == "w" else 0)):
             foot.add((na, 1 if op["kind"] == "w" else 0))
     for e in s.lost:
+        if e[0] == "W-extra":
+            fs.append(dict(clause=P + ".extra_write_beat", key=e[0], what="stream-style native port: more write-data beats than write commands were put on the port (a beat is left over at the end of the run)"))
+            break
         fs.append(dict(clause=P + ".lost_beat", key=e[0], what="native-side %s at cycle %d (native address 0x%x): the bridge was not %s when the one-cycle strobe arrived" % (
             e[0], e[1], e[3], "presenting write data" if e[0].startswith("W") else "ready for read data")))
         break
@@ -387,10 +392,12 @@ def oracle(run, P="C11"):
 # stimulus
 @st.composite
 def slave_sched(draw):
-    return dict(ready=draw(st.sampled_from([None, None, [1, 1], [3, 2], [1, 5], [8, 1, 1, 3], [0, 6, 4, 1], [2, 9]])),
-                wlat=draw(st.lists(st.integers(3, 14), min_size=1, max_size=4)),
-                rlat=draw(st.lists(st.integers(5, 20), min_size=1, max_size=4)),
-                qmax=draw(st.integers(1, 10)))
+    d = dict(ready=draw(st.sampled_from([None, None, [1, 1], [3, 2], [1, 5], [8, 1, 1, 3], [0, 6, 4, 1], [2, 9]])),
+             wlat=draw(st.lists(st.integers(3, 14), min_size=1, max_size=4)),
+             rlat=draw(st.lists(st.integers(5, 20), min_size=1, max_size=4)),
+             qmax=draw(st.integers(1, 10)))
+    d.update(slave_style(draw, st))
+    return d
 
 
 @st.composite
@@ -407,6 +414,15 @@ def avalon_ops(draw, cfg, max_ops=8, over_max=False, align=False):
     ratio = max(1, cfg["port_dw"] // adw)
     unit = ratio // inc if ratio % inc == 0 else ratio      # smallest burstcount with burstcount * inc a multiple of ratio
     nops = draw(st.integers(1, max_ops))
+    # regions of the memory the accesses go to: the bottom, the very top, the middle ("all addresses": every address bit of the port is used);
+    # memory size in Avalon words as the native port declares it, limited by the 30-bit Avalon word address of the test bench
+    M = min((1 << cfg.get("port_aw", 30)) * cfg["port_dw"] // adw, (1 << 30) - off)
+    span = min(span, M)
+    al = ratio * 16
+    regions = [0]
+    if M > 2 * span:
+        regions = draw(st.sampled_from([[0], [0], [M - span - (M - span) % al], [0, M - span - (M - span) % al], [(M // 2) - (M // 2) % al, 0],
+                                        [M - span - (M - span) % al, (M // 4) * 3 - ((M // 4) * 3) % al]]))
     ops = []
     for _ in range(nops):
         kind = draw(st.sampled_from(["w", "r", "wb", "rb", "wb", "rb"]))
@@ -421,10 +437,22 @@ def avalon_ops(draw, cfg, max_ops=8, over_max=False, align=False):
                 n -= n % unit
                 if n < 2:
                     n = unit if 2 <= unit <= hi else 1
+        if n > (M // 2 - 1) // inc:
+            n = max(1, (M // 2 - 1) // inc)
+            if align and n > 1:
+                n -= n % unit
+                if n < 2:
+                    n = 1
         room = span - 1 - (n - 1) * inc
         a = draw(st.integers(0, room)) if room >= 0 else 0
         if align and n > 1:
             a -= a % ratio
+        a += regions[draw(st.integers(0, len(regions) - 1))]
+        over_end = a + (n - 1) * inc - (M - 1)      # the whole burst stays inside the memory
+        if over_end > 0:
+            a -= over_end + ((-over_end) % ratio if align else 0)
+        if a < 0:
+            raise HarnessError("generator: burst of %d beats does not fit a memory of %d Avalon words" % (n, M))
         a += off
         op = dict(kind=kind[0], addr=a, gap=draw(st.one_of(st.just(0), st.integers(0, 12))), wait=draw(st.integers(0, 3)) == 3)
         if kind[0] == "w":
@@ -456,4 +484,7 @@ def classify(cfg, stim, run):
             cl.add("burst_longer_than_fifo")
     if run.stall_in_burst:
         cl.add("native_stall_inside_burst")
+    M = (1 << cfg.get("port_aw", 30)) * cfg["port_dw"] // cfg["avl_dw"]
+    if any(op["addr"] - word_offset(cfg) >= M // 2 for op in stim["ops"]):
+        cl.add("upper_half_of_the_memory")
     return cl
